@@ -1297,7 +1297,55 @@ fn sweep_frame_decoder(out: &mut Outputs) {
 
 /* ------------------------------------------------------------------------------------- */
 
+/// both readers on inputs that promise more than they hold, under a real-time guard: a decoder that does not come back
+/// is reported with the input, and the sweeps below (which call the decoders unguarded) are skipped
+fn probe_readers(out: &mut Outputs) -> bool {
+    let inputs: Vec<Vec<u8>> = vec![
+        vec![0xa1, 0x05, 0x61, 0x62],
+        vec![0xa0, 0x10, 0x01],
+        vec![0xb1, 0x00, 0x00, 0x01, 0x00, 0x61],
+        vec![0xc0, 0x08, 0x02, 0x40],
+        vec![0xd0, 0x00, 0x00, 0x00, 0x10, 0x00, 0x00, 0x00, 0x02, 0x40],
+        vec![0xe0, 0x08, 0x02, 0x50, 0x01],
+        vec![0x00, 0x53, 0x10, 0xc0, 0x0a, 0x02, 0xa1, 0x05, 0x61],
+        vec![0x00, 0xa3, 0x0e, 0x61, 0x6d, 0x71, 0x70],
+        vec![0x80, 0x00, 0x00],
+        vec![0xf0, 0xff, 0xff, 0xff, 0xff, 0x00, 0x00, 0x00, 0x00],
+    ];
+    for b in inputs {
+        let (b1, b2) = (b.clone(), b.clone());
+        let t0 = std::time::Instant::now();
+        let slice_ok = crate::out::guarded(10, move || {
+            let _ = catch_unwind(AssertUnwindSafe(|| serde_amqp::from_slice::<Value>(&b1).is_ok()));
+        })
+        .is_some();
+        let reader_ok = slice_ok
+            && crate::out::guarded(10, move || {
+                let _ = catch_unwind(AssertUnwindSafe(|| serde_amqp::from_reader::<Value>(&b2[..]).is_ok()));
+                let _ = catch_unwind(AssertUnwindSafe(|| serde_amqp::from_reader::<Performative>(&b2[..]).is_ok()));
+            })
+            .is_some();
+        let slow = t0.elapsed() > std::time::Duration::from_secs(4);
+        if !slice_ok || !reader_ok || slow {
+            let which = if !slice_ok { "from_slice::<Value>" } else if !reader_ok { "from_reader (Value / Performative)" } else { "from_slice / from_reader" };
+            out.violation(
+                "c04-spin",
+                &format!("c04-spin: {} {} on the {} bytes {} (a loop that consumes nothing, or work out of proportion to the input)", which, if slow && slice_ok && reader_ok { "takes seconds" } else { "had not returned after 10 s" }, b.len(), hex(&b)),
+                &caseline("probe", &b),
+            );
+            if !slice_ok || !reader_ok {
+                return false;
+            }
+        }
+    }
+    true
+}
+
 pub fn sweeps(out: &mut Outputs, thorough: bool) {
+    if !probe_readers(out) {
+        out.count("sweeps_skipped_decoder_does_not_return");
+        return;
+    }
     let boundary = sweep_boundary(out, thorough);
     let encs = fixed_encodings();
     out.add("sweep_fixed_encodings", encs.len() as u64);
